@@ -112,6 +112,8 @@ package markdown
 //@   requires mt != nil && tbl(mt.Table) && mtab(mt).nColumns <= 1099511627774
 //@   ensures [error-means-no-text] result1 != nil ==> result0 == "" @C09
 //@   ensures [table-still-wellformed] tbl(mt.Table)
+//@   ensures [returns-exactly-what-RenderTo-wrote] result1 == nil ==> result0 == wcat(Wchunk, old(Wn), Wn) @C10
+//@   call RenderTo before ghost renderStart = Wn
 //@   call RenderTo before ghost Wfailed = false
 
 //@ func Render
